@@ -379,7 +379,7 @@ def perturb_ir(rng, ir):
             if rng.random() < 0.8:
                 rr["doc"] = rng.choice(PERTURB_PROSE + ["the result.", "the result."])
             if rng.random() < 0.2:
-                rr["default"] = rng.choice(["```x```", 5, "y"])
+                rr["default"] = rng.choice(["```x```", 5, "y", "", "a b"])
             ir["returns"] = OrderedDict((("return_type", rr),))
         else:
             ir["returns"] = None
@@ -608,10 +608,12 @@ def oracle_ng(rng, n, style):
     pts = gen_oracle_irs(rng, n)
     reqs = [dumps([Sym("c01_class_ng"), Sym(style), irwire.enc_ir(ir)]) for _, ir in pts]
     reqs2 = [dumps([Sym("c01_holds_ng"), Sym(style), irwire.enc_ir(ir)]) for _, ir in pts]
-    outs = run_model(reqs + reqs2)
-    classes, mholds = outs[:len(pts)], outs[len(pts):]
+    reqs3 = [dumps([Sym("c01_scan_link_ng"), Sym(style), irwire.enc_ir(ir)]) for _, ir in pts]
+    outs = run_model(reqs + reqs2 + reqs3)
+    classes, mholds, links = outs[:len(pts)], outs[len(pts):2 * len(pts)], outs[2 * len(pts):]
     failures, hist, seen, disagree, samples = [], collections.Counter(), set(), [], {}
-    for (kind, ir), c, mh in zip(pts, classes, mholds):
+    link_checked = 0
+    for (kind, ir), c, mh, lk in zip(pts, classes, mholds, links):
         ce = loads(c)
         if ce == "out-of-domain":
             hist["out-of-domain"] += 1
@@ -633,7 +635,16 @@ def oracle_ng(rng, n, style):
         if not ok:
             failures.append({"case": case, "what": what, "class": cls})
             samples.setdefault(cls or "VIOLATION", case)
+        if cls is None:
+            # the hypothesis of the partial theorem (scanner output = scanned_of, text over the alphabet), evaluated in
+            # the model on every point inside the guard
+            link_checked += 1
+            if lk != "true":
+                hist["scan-link-false"] += 1
+                failures.append({"case": case, "what": "model: scan_ng (text_of ir) differs from scanned_of ir "
+                                                       "(hypothesis of C01_ng_partial_modulo_scan)", "class": None})
     return {
+        "scan_link_checked": link_checked,
         "evaluations": len(pts),
         "distinct_nontrivial": len(seen),
         "rule": "IRs from gen_ir (clean, general) and perturbed shapes; %s text from the real emit.docstring(word_wrap=False), "
